@@ -1,5 +1,15 @@
 package main
 
+import (
+	"crypto/sha256"
+	"fmt"
+	"go/ast"
+	"go/token"
+	"sort"
+	"strconv"
+	"strings"
+)
+
 // C10: timestamp client acceptance decision, ordered failover, attach + self-check, verification and chain time.
 func init() {
 	generators["C10_gen"] = func(o *out) {
@@ -24,7 +34,7 @@ func init() {
 		// ---- TimeStampReq.SanityCheckToken: order of the checks and the two comparisons
 		scLeaves := map[string]string{"info.Nonce": "info_nonce", "info.MessageImprint.HashedMessage": "info_hashed",
 			"req.MessageImprint.HashedMessage": "req_hashed",
-			"req.Nonce != nil": "req_has_nonce", "req.Nonce == nil": "(negb req_has_nonce)",
+			"req.Nonce != nil":                 "req_has_nonce", "req.Nonce == nil": "(negb req_has_nonce)",
 			"info.Nonce == nil": "(negb info_has_nonce)", "info.Nonce != nil": "info_has_nonce"}
 		scCalls := map[string]string{"req.Nonce.Cmp": "cmp3 req_nonce", "hmac.Equal": "bytes_eqb"}
 		scTypes := map[string]string{"hmac.Equal()": "bool"}
@@ -121,5 +131,1049 @@ func init() {
 		fingerprint("lib/appmanifest", "", "VerifyTimestamp")
 		fingerprint("signers/cosign", "", "attachTimestamp")
 		fingerprint("signers/vsix", "", "checkTimestamp")
+
+		// ---- verification HISTORY: the three VerifyChain functions as programs of the chain-verification IR
+		// (coq/C10/ChainIR.v), the inventory of package-level mutable state, and what the verification path touches
+		c10Chain(o)
 	}
+}
+
+// ======================================================================================================================
+// C10 round 2: verification HISTORY.
+//
+//   (1) inventory of the package-level mutable state of lib/pkcs7, lib/pkcs9, lib/x509tools
+//   (2) what the verification path (name-based call closure inside those three packages) does to that state
+//   (3) pkcs7.Signature.VerifyChain, pkcs9.CounterSignature.VerifyChain, pkcs9.TimestampedSignature.VerifyChain
+//       translated statement by statement into the chain-verification IR of coq/C10/ChainIR.v (memo look-ups and
+//       stores on package-level variables included); anything the translator does not understand becomes
+//       `SUnknown h`, which the model refuses (the theorems then no longer compile).
+
+var c10Dirs = []string{"lib/pkcs7", "lib/pkcs9", "lib/x509tools"}
+var c10Alias = map[string]string{"pkcs7": "lib/pkcs7", "pkcs9": "lib/pkcs9", "x509tools": "lib/x509tools"}
+
+type c10Var struct {
+	dir, name, typ string
+	hasInit        bool
+	literalInit    bool
+}
+
+func c10LiteralExpr(e ast.Expr) bool {
+	switch x := e.(type) {
+	case *ast.BasicLit:
+		return true
+	case *ast.Ident:
+		return true
+	case *ast.SelectorExpr:
+		return true
+	case *ast.CompositeLit: // a table; elements may be anything that is itself literal-like
+		for _, el := range x.Elts {
+			if kv, ok := el.(*ast.KeyValueExpr); ok {
+				el = kv.Value
+			}
+			if !c10LiteralExpr(el) {
+				return false
+			}
+		}
+		return true
+	case *ast.BinaryExpr:
+		return c10LiteralExpr(x.X) && c10LiteralExpr(x.Y)
+	case *ast.UnaryExpr:
+		return x.Op != token.AND && x.Op != token.ARROW && c10LiteralExpr(x.X)
+	case *ast.ParenExpr:
+		return c10LiteralExpr(x.X)
+	case *ast.CallExpr: // error values and conversions of literals
+		fn := printNode(token.NewFileSet(), x.Fun)
+		if fn == "errors.New" || fn == "fmt.Errorf" || fn == "regexp.MustCompile" || fn == "big.NewInt" {
+			return true
+		}
+		if len(x.Args) == 1 {
+			if _, isType := x.Fun.(*ast.ArrayType); isType {
+				return c10LiteralExpr(x.Args[0])
+			}
+			if id, ok := x.Fun.(*ast.Ident); ok && (widths[id.Name] != 0 || id.Name == "string" || id.Name == "int" || id.Name == "uint") {
+				return c10LiteralExpr(x.Args[0])
+			}
+		}
+		return false
+	}
+	return false
+}
+
+func c10PkgVars(dir string) []c10Var {
+	p := loadPkg(dir)
+	var out []c10Var
+	for _, f := range p.files {
+		for _, d := range f.Decls {
+			gd, ok := d.(*ast.GenDecl)
+			if !ok || gd.Tok != token.VAR {
+				continue
+			}
+			for _, s := range gd.Specs {
+				vs := s.(*ast.ValueSpec)
+				typ := ""
+				if vs.Type != nil {
+					typ = printNode(p.fset, vs.Type)
+				}
+				for i, n := range vs.Names {
+					if n.Name == "_" {
+						continue
+					}
+					v := c10Var{dir: dir, name: n.Name, typ: typ}
+					if len(vs.Values) > i {
+						v.hasInit = true
+						v.literalInit = c10LiteralExpr(vs.Values[i])
+					} else if len(vs.Values) > 0 { // multi-value call
+						v.hasInit = true
+					}
+					out = append(out, v)
+				}
+			}
+		}
+	}
+	sort.Slice(out, func(i, j int) bool { return out[i].name < out[j].name })
+	return out
+}
+
+type c10Ref struct{ dir, name, kind, fn string }
+
+func c10FuncKey(dir string, fd *ast.FuncDecl) string {
+	r := ""
+	if fd.Recv != nil && len(fd.Recv.List) == 1 {
+		t := fd.Recv.List[0].Type
+		if s, ok := t.(*ast.StarExpr); ok {
+			t = s.X
+		}
+		if id, ok := t.(*ast.Ident); ok {
+			r = id.Name
+		}
+	}
+	return dir + ":" + r + "." + fd.Name.Name
+}
+
+// names declared inside the function (parameters, results, receiver, :=, var, range): they shadow package-level names
+func c10LocalNames(fd *ast.FuncDecl) map[string]bool {
+	loc := map[string]bool{}
+	addFields := func(fl *ast.FieldList) {
+		if fl == nil {
+			return
+		}
+		for _, f := range fl.List {
+			for _, n := range f.Names {
+				loc[n.Name] = true
+			}
+		}
+	}
+	addFields(fd.Recv)
+	addFields(fd.Type.Params)
+	addFields(fd.Type.Results)
+	if fd.Body == nil {
+		return loc
+	}
+	ast.Inspect(fd.Body, func(n ast.Node) bool {
+		switch x := n.(type) {
+		case *ast.AssignStmt:
+			if x.Tok == token.DEFINE {
+				for _, l := range x.Lhs {
+					if id, ok := l.(*ast.Ident); ok {
+						loc[id.Name] = true
+					}
+				}
+			}
+		case *ast.ValueSpec:
+			for _, id := range x.Names {
+				loc[id.Name] = true
+			}
+		case *ast.RangeStmt:
+			if x.Tok == token.DEFINE {
+				for _, e := range []ast.Expr{x.Key, x.Value} {
+					if id, ok := e.(*ast.Ident); ok {
+						loc[id.Name] = true
+					}
+				}
+			}
+		case *ast.FuncLit:
+			addFields(x.Type.Params)
+			addFields(x.Type.Results)
+		}
+		return true
+	})
+	return loc
+}
+
+// c10Refs lists every reference to a package-level variable of the three packages made inside fd, with the way it is used
+func c10Refs(dir string, fd *ast.FuncDecl, vars map[string]map[string]bool) []c10Ref {
+	if fd.Body == nil {
+		return nil
+	}
+	loc := c10LocalNames(fd)
+	parent := map[ast.Node]ast.Node{}
+	var stack []ast.Node
+	ast.Inspect(fd.Body, func(n ast.Node) bool {
+		if n == nil {
+			stack = stack[:len(stack)-1]
+			return true
+		}
+		if len(stack) > 0 {
+			parent[n] = stack[len(stack)-1]
+		}
+		stack = append(stack, n)
+		return true
+	})
+	key := c10FuncKey(dir, fd)
+	var out []c10Ref
+	classify := func(ref ast.Node) string {
+		cur := ref
+		for {
+			p := parent[cur]
+			switch x := p.(type) {
+			case *ast.SelectorExpr:
+				if x.X == cur {
+					if gp, ok := parent[p].(*ast.CallExpr); ok && gp.Fun == p && cur == ref {
+						return "call:" + x.Sel.Name
+					}
+					cur = p
+					continue
+				}
+			case *ast.IndexExpr:
+				if x.X == cur {
+					cur = p
+					continue
+				}
+			case *ast.ParenExpr, *ast.StarExpr:
+				cur = p
+				continue
+			case *ast.AssignStmt:
+				for _, l := range x.Lhs {
+					if l == cur {
+						return "write"
+					}
+				}
+			case *ast.IncDecStmt:
+				return "write"
+			case *ast.UnaryExpr:
+				if x.Op == token.AND {
+					return "addr"
+				}
+			case *ast.CallExpr:
+				if id, ok := x.Fun.(*ast.Ident); ok && (id.Name == "delete" || id.Name == "clear") && len(x.Args) > 0 && x.Args[0] == cur {
+					return "write"
+				}
+			case *ast.RangeStmt:
+				if (x.Key == cur || x.Value == cur) && x.Tok == token.ASSIGN {
+					return "write"
+				}
+			}
+			return "read"
+		}
+	}
+	ast.Inspect(fd.Body, func(n ast.Node) bool {
+		switch x := n.(type) {
+		case *ast.SelectorExpr:
+			if id, ok := x.X.(*ast.Ident); ok && !loc[id.Name] {
+				if d, ok := c10Alias[id.Name]; ok && vars[d][x.Sel.Name] {
+					out = append(out, c10Ref{d, x.Sel.Name, classify(x), key})
+					return false
+				}
+			}
+			// field / method selector: only the operand may name a package variable
+			ast.Inspect(x.X, func(m ast.Node) bool { return true })
+			return true
+		case *ast.KeyValueExpr:
+			return true
+		case *ast.Ident:
+			if loc[x.Name] || !vars[dir][x.Name] {
+				return true
+			}
+			switch p := parent[x].(type) {
+			case *ast.SelectorExpr:
+				if p.Sel == x {
+					return true
+				}
+			case *ast.KeyValueExpr:
+				if p.Key == x {
+					if _, inLit := parent[p].(*ast.CompositeLit); inLit {
+						return true // struct field name
+					}
+				}
+			}
+			out = append(out, c10Ref{dir, x.Name, classify(x), key})
+		}
+		return true
+	})
+	return out
+}
+
+var c10Mutators = map[string]bool{"Store": true, "LoadOrStore": true, "LoadAndDelete": true, "Delete": true, "Swap": true, "CompareAndSwap": true,
+	"CompareAndDelete": true, "Add": true, "Set": true, "Lock": true, "Unlock": true, "RLock": true, "RUnlock": true, "TryLock": true, "Do": true,
+	"Put": true, "Get": true, "Reset": true, "Write": true, "Push": true, "Pop": true, "Insert": true, "Remove": true, "Clear": true, "Wait": true,
+	"Done": true, "Signal": true, "Broadcast": true, "Load": true, "Range": true, "Inc": true, "Dec": true, "AddCert": true, "AppendCertsFromPEM": true}
+
+func c10Hash(s string) int64 {
+	h := sha256.Sum256([]byte(strings.Join(strings.Fields(s), " ")))
+	return int64(h[0])<<16 | int64(h[1])<<8 | int64(h[2]) + 1
+}
+
+// identifies a package-level variable inside an IR term (the name is kept as a comment)
+func c10Gid(g string) string { return fmt.Sprintf("%d (* %s *)", c10Hash(g), g) }
+
+func c10Str(s string) string { return strconv.Quote(s) + "%string" }
+
+func c10StrList(xs []string) string {
+	q := make([]string, len(xs))
+	for i, x := range xs {
+		q[i] = c10Str(x)
+	}
+	return "[" + strings.Join(q, "; ") + "]"
+}
+
+func c10Chain(o *out) {
+	o.f("\n(* ---- verification history (C10 round 2) *)\nFrom Coq Require Import String.\nFrom Relic Require Import C10.ChainIR.\n")
+	// ------------------------------------------------------------ (1) inventory
+	vars := map[string]map[string]bool{}
+	all := map[string][]c10Var{}
+	for _, d := range c10Dirs {
+		vars[d] = map[string]bool{}
+		all[d] = c10PkgVars(d)
+		for _, v := range all[d] {
+			vars[d][v.name] = true
+		}
+	}
+	type fn struct {
+		dir string
+		fd  *ast.FuncDecl
+	}
+	var fns []fn
+	byName := map[string][]fn{}
+	for _, d := range c10Dirs {
+		p := loadPkg(d)
+		var names []string
+		for n := range p.files {
+			names = append(names, n)
+		}
+		sort.Strings(names)
+		for _, n := range names {
+			for _, dd := range p.files[n].Decls {
+				if fd, ok := dd.(*ast.FuncDecl); ok {
+					fns = append(fns, fn{d, fd})
+					byName[fd.Name.Name] = append(byName[fd.Name.Name], fn{d, fd})
+				}
+			}
+		}
+	}
+	refsOf := map[string][]c10Ref{}
+	mutated := map[string]string{} // dir.name -> first reason
+	for _, f := range fns {
+		rs := c10Refs(f.dir, f.fd, vars)
+		refsOf[c10FuncKey(f.dir, f.fd)] = rs
+		for _, r := range rs {
+			k := r.dir + "." + r.name
+			if _, seen := mutated[k]; seen {
+				continue
+			}
+			if r.kind == "write" || r.kind == "addr" || (strings.HasPrefix(r.kind, "call:") && c10Mutators[r.kind[5:]]) {
+				mutated[k] = r.kind + " in " + r.fn
+			}
+		}
+	}
+	isMutable := func(v c10Var) (bool, string) {
+		if !v.hasInit {
+			return true, "no initialiser"
+		}
+		if strings.HasPrefix(v.typ, "sync.") || strings.HasPrefix(v.typ, "atomic.") || strings.HasPrefix(v.typ, "*") {
+			return true, "type " + v.typ
+		}
+		if !v.literalInit {
+			return true, "initialiser is not a literal table"
+		}
+		if why, ok := mutated[v.dir+"."+v.name]; ok {
+			return true, why
+		}
+		return false, ""
+	}
+	mutableSet := map[string]bool{}
+	for _, d := range c10Dirs {
+		var mut, why, tables []string
+		for _, v := range all[d] {
+			if m, w := isMutable(v); m {
+				mut = append(mut, v.name)
+				why = append(why, v.name+": "+w)
+				mutableSet[d+"."+v.name] = true
+			} else {
+				tables = append(tables, v.name)
+			}
+		}
+		short := d[strings.LastIndex(d, "/")+1:]
+		o.f("Definition mutable_state_%s : list string := %s.\n(* %s: %s *)\n", short, c10StrList(mut), d, strings.Join(why, "; "))
+		o.f("Definition constant_tables_%s : Z := %d. (* initialised by a literal and never written, address-taken or mutated through a method: %s *)\n",
+			short, len(tables), strings.Join(tables, " "))
+	}
+	// ------------------------------------------------------------ (2) what the verification path touches
+	entries := [][3]string{{"lib/pkcs9", "TimestampedSignature", "VerifyChain"}, {"lib/pkcs9", "CounterSignature", "VerifyChain"},
+		{"lib/pkcs7", "Signature", "VerifyChain"}, {"lib/pkcs9", "", "VerifyOptionalTimestamp"}, {"lib/pkcs9", "", "VerifyPkcs7"},
+		{"lib/pkcs9", "", "Verify"}, {"lib/pkcs9", "", "finishVerify"}, {"lib/pkcs9", "", "VerifyMicrosoftToken"},
+		{"lib/pkcs9", "MessageImprint", "Verify"}, {"lib/pkcs7", "SignedData", "Verify"}, {"lib/pkcs7", "SignerInfo", "Verify"},
+		{"lib/pkcs7", "", "Unmarshal"}}
+	reach := map[string]bool{}
+	var work []fn
+	for _, e := range entries {
+		_, fd := findFunc(e[0], e[1], e[2])
+		if fd == nil {
+			o.brokenDef("verify_path_state", "entry point "+e[0]+":"+e[1]+"."+e[2]+" not found")
+			continue
+		}
+		k := c10FuncKey(e[0], fd)
+		if !reach[k] {
+			reach[k] = true
+			work = append(work, fn{e[0], fd})
+		}
+	}
+	for len(work) > 0 {
+		f := work[len(work)-1]
+		work = work[:len(work)-1]
+		if f.fd.Body == nil {
+			continue
+		}
+		ast.Inspect(f.fd.Body, func(n ast.Node) bool {
+			ce, ok := n.(*ast.CallExpr)
+			if !ok {
+				return true
+			}
+			name := ""
+			switch x := ce.Fun.(type) {
+			case *ast.Ident:
+				name = x.Name
+			case *ast.SelectorExpr:
+				name = x.Sel.Name
+			}
+			for _, g := range byName[name] {
+				k := c10FuncKey(g.dir, g.fd)
+				if !reach[k] {
+					reach[k] = true
+					work = append(work, g)
+				}
+			}
+			return true
+		})
+	}
+	var reachKeys []string
+	for k := range reach {
+		reachKeys = append(reachKeys, k)
+	}
+	sort.Strings(reachKeys)
+	touchSet := map[string]bool{}
+	for _, k := range reachKeys {
+		for _, r := range refsOf[k] {
+			if mutableSet[r.dir+"."+r.name] {
+				touchSet[r.dir+"."+r.name+" "+r.kind+" in "+r.fn] = true
+			}
+		}
+	}
+	var touches []string
+	for t := range touchSet {
+		touches = append(touches, t)
+	}
+	sort.Strings(touches)
+	o.f("Definition verify_path_state : list string := %s.\n(* uses of mutable package-level state by the %d functions of lib/pkcs7, lib/pkcs9, lib/x509tools reachable (by callee name) from the verification entry points *)\n",
+		c10StrList(touches), len(reachKeys))
+	o.f("Definition verify_path_functions : Z := %d.\n", len(reachKeys))
+
+	// ------------------------------------------------------------ (3) the three VerifyChain functions as IR programs
+	c10Program(o, "lib/pkcs7", "Signature", "VerifyChain", "vc7_prog", vars)
+	c10Program(o, "lib/pkcs9", "CounterSignature", "VerifyChain", "vc9cs_prog", vars)
+	c10Program(o, "lib/pkcs9", "TimestampedSignature", "VerifyChain", "vc9ts_prog", vars)
+}
+
+// ---------------------------------------------------------------------------------------------------------------------
+// translation of one VerifyChain function into the IR
+
+type c10Sym struct {
+	kind  string   // pool | opts | expr | memook
+	srcs  []string // pool: isrc terms
+	pool  string   // opts: name of the pool variable feeding Intermediates ("" = none)
+	inter []string // opts: direct intermediates when not a tracked pool
+	roots string   // opts: rexp
+	time  string   // opts: texp
+	uses  []string // opts: uexp list
+	expr  ast.Expr // expr: the bound expression (memo keys)
+	memo  string   // memook: CMemoHit term
+}
+
+type c10Tr struct {
+	p                             *pkgInfo
+	dir                           string
+	recv                          string
+	pRoots, pExtra, pUsage, pTime string
+	timeLocal                     string
+	syms                          map[string]*c10Sym
+	vars                          map[string]map[string]bool
+	unknown                       []string
+}
+
+func (t *c10Tr) pr(n ast.Node) string {
+	return strings.Join(strings.Fields(printNode(t.p.fset, n)), " ")
+}
+
+func (t *c10Tr) unk(n ast.Node) string {
+	s := t.pr(n)
+	t.unknown = append(t.unknown, s)
+	return fmt.Sprintf("(SUnknown %d)", c10Hash(s))
+}
+
+// does the expression mention a package-level variable of the three packages? returns its qualified name
+func (t *c10Tr) globalIn(e ast.Node) string {
+	found := ""
+	ast.Inspect(e, func(n ast.Node) bool {
+		if found != "" {
+			return false
+		}
+		switch x := n.(type) {
+		case *ast.SelectorExpr:
+			if id, ok := x.X.(*ast.Ident); ok {
+				if d, ok := c10Alias[id.Name]; ok && t.vars[d][x.Sel.Name] {
+					found = d + "." + x.Sel.Name
+					return false
+				}
+			}
+			ast.Inspect(x.X, func(m ast.Node) bool {
+				if id, ok := m.(*ast.Ident); ok && found == "" && t.isGlobalIdent(id) {
+					found = t.dir + "." + id.Name
+				}
+				return found == ""
+			})
+			return false
+		case *ast.Ident:
+			if t.isGlobalIdent(x) {
+				found = t.dir + "." + x.Name
+			}
+		}
+		return true
+	})
+	return found
+}
+
+func (t *c10Tr) isGlobalIdent(id *ast.Ident) bool {
+	if _, local := t.syms[id.Name]; local {
+		return false
+	}
+	if id.Name == t.recv || id.Name == t.pRoots || id.Name == t.pExtra || id.Name == t.pUsage || id.Name == t.pTime || id.Name == t.timeLocal {
+		return false
+	}
+	return t.vars[t.dir][id.Name]
+}
+
+// package-level variable named by an expression (G or alias.G), "" if none
+func (t *c10Tr) globalVar(e ast.Expr) string {
+	switch x := e.(type) {
+	case *ast.Ident:
+		if t.isGlobalIdent(x) {
+			return t.dir + "." + x.Name
+		}
+	case *ast.SelectorExpr:
+		if id, ok := x.X.(*ast.Ident); ok {
+			if d, ok := c10Alias[id.Name]; ok && t.vars[d][x.Sel.Name] {
+				return d + "." + x.Sel.Name
+			}
+		}
+	case *ast.ParenExpr:
+		return t.globalVar(x.X)
+	case *ast.UnaryExpr:
+		if x.Op == token.AND {
+			return t.globalVar(x.X)
+		}
+	}
+	return ""
+}
+
+var c10Usages = map[string]int{"x509.ExtKeyUsageAny": 0, "x509.ExtKeyUsageServerAuth": 1, "x509.ExtKeyUsageClientAuth": 2, "x509.ExtKeyUsageCodeSigning": 3,
+	"x509.ExtKeyUsageEmailProtection": 4, "x509.ExtKeyUsageIPSECEndSystem": 5, "x509.ExtKeyUsageIPSECTunnel": 6, "x509.ExtKeyUsageIPSECUser": 7,
+	"x509.ExtKeyUsageTimeStamping": 8, "x509.ExtKeyUsageOCSPSigning": 9}
+
+func (t *c10Tr) texp(e ast.Expr) string {
+	s := t.pr(e)
+	switch {
+	case t.pTime != "" && s == t.pTime:
+		return "TParam"
+	case t.timeLocal != "" && s == t.timeLocal:
+		return "TLocal"
+	case s == t.recv+".SigningTime" || s == t.recv+".CounterSignature.SigningTime":
+		return "TCsTime"
+	case s == "time.Time{}":
+		return "TZero"
+	case s == "time.Now()":
+		return "TNow"
+	}
+	return fmt.Sprintf("(TOther %d)", c10Hash(s))
+}
+
+func (t *c10Tr) uexp(e ast.Expr) string {
+	s := t.pr(e)
+	if t.pUsage != "" && s == t.pUsage {
+		return "UParam"
+	}
+	if v, ok := c10Usages[s]; ok {
+		return fmt.Sprintf("(UConst %d)", v)
+	}
+	return fmt.Sprintf("(UOther %d)", c10Hash(s))
+}
+
+func (t *c10Tr) rexp(e ast.Expr) string {
+	s := t.pr(e)
+	if t.pRoots != "" && s == t.pRoots {
+		return "RParam"
+	}
+	if s == "nil" {
+		return "RNil"
+	}
+	return fmt.Sprintf("(ROther %d)", c10Hash(s))
+}
+
+func (t *c10Tr) isrc(e ast.Expr) string {
+	s := t.pr(e)
+	if t.pExtra != "" && s == t.pExtra {
+		return "IExtra"
+	}
+	if s == t.recv+".Intermediates" || s == t.recv+".Signature.Intermediates" {
+		return "IInter"
+	}
+	return fmt.Sprintf("(IOther %d)", c10Hash(s))
+}
+
+func (t *c10Tr) extraArg(e ast.Expr) string {
+	if t.pr(e) == "nil" {
+		return "[]"
+	}
+	return "[" + t.isrc(e) + "]"
+}
+
+// one component of a memo key
+func (t *c10Tr) kcomp(e ast.Expr) string {
+	s := t.pr(e)
+	switch {
+	case t.pRoots != "" && s == t.pRoots:
+		return "KRoots"
+	case t.pUsage != "" && s == t.pUsage:
+		return "KUsage"
+	case t.pExtra != "" && s == t.pExtra:
+		return "KExtra"
+	case s == t.recv+".Intermediates":
+		return "KInter"
+	}
+	if te := t.texp(e); !strings.HasPrefix(te, "(TOther") {
+		return "(KTime " + te + ")"
+	}
+	leaf := t.recv + ".Certificate"
+	for _, pat := range []string{leaf, leaf + ".Raw", "string(" + leaf + ".Raw)", "sha256.Sum256(" + leaf + ".Raw)", "sha1.Sum(" + leaf + ".Raw)",
+		"sha512.Sum512(" + leaf + ".Raw)", "hex.EncodeToString(" + leaf + ".Raw)"} {
+		if s == pat {
+			return "KLeaf"
+		}
+	}
+	if bl, ok := e.(*ast.BasicLit); ok && bl.Kind == token.INT {
+		if v, err := strconv.ParseInt(bl.Value, 0, 64); err == nil {
+			return fmt.Sprintf("(KConst %d)", v)
+		}
+	}
+	return fmt.Sprintf("(KOther %d)", c10Hash(s))
+}
+
+func (t *c10Tr) key(e ast.Expr) string {
+	if id, ok := e.(*ast.Ident); ok {
+		if sym, ok := t.syms[id.Name]; ok && sym.kind == "expr" {
+			return t.key(sym.expr)
+		}
+	}
+	if cl, ok := e.(*ast.CompositeLit); ok {
+		var cs []string
+		for _, el := range cl.Elts {
+			if kv, ok := el.(*ast.KeyValueExpr); ok {
+				el = kv.Value
+			}
+			cs = append(cs, t.kcomp(el))
+		}
+		return "[" + strings.Join(cs, "; ") + "]"
+	}
+	return "[" + t.kcomp(e) + "]"
+}
+
+// pure right-hand sides that may be bound to a local name without any effect
+func (t *c10Tr) pureExpr(e ast.Expr) bool {
+	pure := true
+	ast.Inspect(e, func(n ast.Node) bool {
+		if ce, ok := n.(*ast.CallExpr); ok {
+			fn := t.pr(ce.Fun)
+			switch fn {
+			case "sha256.Sum256", "sha1.Sum", "sha512.Sum512", "string", "new", "hex.EncodeToString", "fmt.Sprintf", "len":
+			default:
+				if _, isType := ce.Fun.(*ast.ArrayType); !isType {
+					pure = false
+				}
+			}
+		}
+		return pure
+	})
+	return pure && t.globalIn(e) == ""
+}
+
+func (t *c10Tr) callArgs(ce *ast.CallExpr) (string, bool) {
+	sel, ok := ce.Fun.(*ast.SelectorExpr)
+	if !ok || sel.Sel.Name != "VerifyChain" {
+		return "", false
+	}
+	rcv := t.pr(sel.X)
+	switch {
+	case len(ce.Args) == 4 && rcv == t.recv+".Signature":
+		return fmt.Sprintf("F7 %s %s %s %s", t.rexp(ce.Args[0]), t.extraArg(ce.Args[1]), t.uexp(ce.Args[2]), t.texp(ce.Args[3])), true
+	case len(ce.Args) == 2 && rcv == t.recv+".CounterSignature":
+		return fmt.Sprintf("F9cs %s %s (UConst 0) TZero", t.rexp(ce.Args[0]), t.extraArg(ce.Args[1])), true
+	}
+	return "", false
+}
+
+// memo look-up `_, ok := G.Load(K)` / `v, ok := G[K]`: returns the CMemoHit term
+func (t *c10Tr) memoLookup(as *ast.AssignStmt) (okName, term string, ok bool) {
+	if as.Tok != token.DEFINE || len(as.Lhs) != 2 || len(as.Rhs) != 1 {
+		return
+	}
+	okId, isId := as.Lhs[1].(*ast.Ident)
+	if !isId {
+		return
+	}
+	switch r := as.Rhs[0].(type) {
+	case *ast.CallExpr:
+		if sel, isSel := r.Fun.(*ast.SelectorExpr); isSel && sel.Sel.Name == "Load" && len(r.Args) == 1 {
+			if g := t.globalVar(sel.X); g != "" {
+				return okId.Name, fmt.Sprintf("(CMemoHit %s %s)", c10Gid(g), t.key(r.Args[0])), true
+			}
+		}
+	case *ast.IndexExpr:
+		if g := t.globalVar(r.X); g != "" {
+			return okId.Name, fmt.Sprintf("(CMemoHit %s %s)", c10Gid(g), t.key(r.Index)), true
+		}
+	}
+	return
+}
+
+func (t *c10Tr) cond(e ast.Expr) string {
+	s := t.pr(e)
+	switch s {
+	case "err == nil":
+		return "CNotFailed"
+	case "err != nil":
+		return "CFailed"
+	case t.recv + ".CounterSignature != nil":
+		return "CHasCs"
+	case t.recv + ".CounterSignature == nil":
+		return "CNoCs"
+	}
+	switch x := e.(type) {
+	case *ast.ParenExpr:
+		return t.cond(x.X)
+	case *ast.UnaryExpr:
+		if x.Op == token.NOT {
+			return "(CNeg " + t.cond(x.X) + ")"
+		}
+	case *ast.BinaryExpr:
+		if x.Op == token.LAND {
+			return "(CAnd " + t.cond(x.X) + " " + t.cond(x.Y) + ")"
+		}
+		if x.Op == token.LOR {
+			return "(COr " + t.cond(x.X) + " " + t.cond(x.Y) + ")"
+		}
+	case *ast.Ident:
+		if sym, ok := t.syms[x.Name]; ok && sym.kind == "memook" {
+			return sym.memo
+		}
+	case *ast.IndexExpr: // if G[K] { ... } on a map[key]bool
+		if g := t.globalVar(x.X); g != "" {
+			return fmt.Sprintf("(CMemoHit %s %s)", c10Gid(g), t.key(x.Index))
+		}
+	}
+	if g := t.globalIn(e); g != "" {
+		return fmt.Sprintf("(CGlobal %d)", c10Hash(s))
+	}
+	return fmt.Sprintf("(COpaque %d)", c10Hash(s))
+}
+
+func c10Seq(parts []string) string {
+	if len(parts) == 0 {
+		return "SSkip"
+	}
+	res := parts[len(parts)-1]
+	for i := len(parts) - 2; i >= 0; i-- {
+		res = "(SSeq " + parts[i] + " " + res + ")"
+	}
+	return res
+}
+
+func (t *c10Tr) lockCall(e ast.Expr) bool {
+	ce, ok := e.(*ast.CallExpr)
+	if !ok {
+		return false
+	}
+	sel, ok := ce.Fun.(*ast.SelectorExpr)
+	if !ok {
+		return false
+	}
+	switch sel.Sel.Name {
+	case "Lock", "Unlock", "RLock", "RUnlock":
+		return len(ce.Args) == 0
+	}
+	return false
+}
+
+func (t *c10Tr) block(list []ast.Stmt) string {
+	var parts []string
+	for _, s := range list {
+		if term := t.stmt(s); term != "" {
+			parts = append(parts, term)
+		}
+	}
+	return c10Seq(parts)
+}
+
+// initialiser of an if statement; returns statements to run before the condition
+func (t *c10Tr) ifInit(s ast.Stmt) (string, bool) {
+	as, ok := s.(*ast.AssignStmt)
+	if !ok {
+		return "", false
+	}
+	if okName, term, ok := t.memoLookup(as); ok {
+		t.syms[okName] = &c10Sym{kind: "memook", memo: term}
+		return "", true
+	}
+	if len(as.Lhs) == 1 && len(as.Rhs) == 1 && t.pr(as.Lhs[0]) == "err" {
+		if ce, ok := as.Rhs[0].(*ast.CallExpr); ok {
+			if args, ok := t.callArgs(ce); ok {
+				return "(SCall " + args + ")", true
+			}
+		}
+	}
+	if as.Tok == token.DEFINE && len(as.Lhs) == 1 && len(as.Rhs) == 1 && t.pureExpr(as.Rhs[0]) {
+		if id, ok := as.Lhs[0].(*ast.Ident); ok {
+			t.syms[id.Name] = &c10Sym{kind: "expr", expr: as.Rhs[0]}
+			return "", true
+		}
+	}
+	return "", false
+}
+
+func (t *c10Tr) stmt(s ast.Stmt) string {
+	switch x := s.(type) {
+	case *ast.DeclStmt: // var signingTime time.Time
+		if gd, ok := x.Decl.(*ast.GenDecl); ok && gd.Tok == token.VAR && len(gd.Specs) == 1 {
+			vs := gd.Specs[0].(*ast.ValueSpec)
+			if len(vs.Names) == 1 && vs.Type != nil && t.pr(vs.Type) == "time.Time" && t.timeLocal == "" {
+				t.timeLocal = vs.Names[0].Name
+				if len(vs.Values) == 0 {
+					return "(SSetTime TZero)"
+				}
+				if len(vs.Values) == 1 {
+					t.timeLocal = ""
+					te := t.texp(vs.Values[0])
+					t.timeLocal = vs.Names[0].Name
+					return "(SSetTime " + te + ")"
+				}
+			}
+		}
+		return t.unk(s)
+	case *ast.RangeStmt: // for _, cert := range SRC { pool.AddCert(cert) }
+		if len(x.Body.List) == 1 {
+			if es, ok := x.Body.List[0].(*ast.ExprStmt); ok {
+				if ce, ok := es.X.(*ast.CallExpr); ok && len(ce.Args) == 1 {
+					if sel, ok := ce.Fun.(*ast.SelectorExpr); ok && sel.Sel.Name == "AddCert" && x.Value != nil && t.pr(ce.Args[0]) == t.pr(x.Value) {
+						if id, ok := sel.X.(*ast.Ident); ok {
+							if sym, ok := t.syms[id.Name]; ok && sym.kind == "pool" {
+								sym.srcs = append(sym.srcs, t.isrc(x.X))
+								return ""
+							}
+						}
+					}
+				}
+			}
+		}
+		return t.unk(s)
+	case *ast.AssignStmt:
+		if len(x.Lhs) == 1 && len(x.Rhs) == 1 {
+			lhs := t.pr(x.Lhs[0])
+			rhs := x.Rhs[0]
+			if x.Tok == token.ASSIGN && t.timeLocal != "" && lhs == t.timeLocal {
+				return "(SSetTime " + t.texp(rhs) + ")"
+			}
+			if ix, ok := x.Lhs[0].(*ast.IndexExpr); ok && x.Tok == token.ASSIGN { // G[K] = v
+				if g := t.globalVar(ix.X); g != "" {
+					return fmt.Sprintf("(SMemoStore %s %s)", c10Gid(g), t.key(ix.Index))
+				}
+			}
+			if id, ok := x.Lhs[0].(*ast.Ident); ok && x.Tok == token.DEFINE {
+				if t.pr(rhs) == "x509.NewCertPool()" {
+					t.syms[id.Name] = &c10Sym{kind: "pool"}
+					return ""
+				}
+				if cl, ok := rhs.(*ast.CompositeLit); ok && t.pr(cl.Type) == "x509.VerifyOptions" {
+					sym := &c10Sym{kind: "opts", roots: "RNil", time: "TZero"}
+					for _, el := range cl.Elts {
+						kv, ok := el.(*ast.KeyValueExpr)
+						if !ok {
+							return t.unk(s)
+						}
+						switch t.pr(kv.Key) {
+						case "Intermediates":
+							if pid, ok := kv.Value.(*ast.Ident); ok && t.syms[pid.Name] != nil && t.syms[pid.Name].kind == "pool" {
+								sym.pool = pid.Name
+							} else if t.pr(kv.Value) != "nil" {
+								sym.inter = []string{fmt.Sprintf("(IOther %d)", c10Hash(t.pr(kv.Value)))}
+							}
+						case "Roots":
+							sym.roots = t.rexp(kv.Value)
+						case "CurrentTime":
+							sym.time = t.texp(kv.Value)
+						case "KeyUsages":
+							if ul, ok := kv.Value.(*ast.CompositeLit); ok {
+								for _, u := range ul.Elts {
+									sym.uses = append(sym.uses, t.uexp(u))
+								}
+							} else {
+								sym.uses = []string{fmt.Sprintf("(UOther %d)", c10Hash(t.pr(kv.Value)))}
+							}
+						default:
+							return t.unk(s)
+						}
+					}
+					t.syms[id.Name] = sym
+					return ""
+				}
+				if t.pureExpr(rhs) {
+					t.syms[id.Name] = &c10Sym{kind: "expr", expr: rhs}
+					return ""
+				}
+			}
+			if lhs == "err" {
+				if ce, ok := rhs.(*ast.CallExpr); ok {
+					if args, ok := t.callArgs(ce); ok {
+						return "(SCall " + args + ")"
+					}
+				}
+			}
+		}
+		if len(x.Lhs) == 2 && len(x.Rhs) == 1 && t.pr(x.Lhs[1]) == "err" { // _, err := info.Certificate.Verify(opts)
+			if ce, ok := x.Rhs[0].(*ast.CallExpr); ok && len(ce.Args) == 1 {
+				if sel, ok := ce.Fun.(*ast.SelectorExpr); ok && sel.Sel.Name == "Verify" && t.pr(sel.X) == t.recv+".Certificate" {
+					if oid, ok := ce.Args[0].(*ast.Ident); ok {
+						if sym, ok := t.syms[oid.Name]; ok && sym.kind == "opts" {
+							inter := sym.inter
+							if sym.pool != "" {
+								inter = t.syms[sym.pool].srcs
+							}
+							return fmt.Sprintf("(SVerify [%s] %s %s [%s])", strings.Join(inter, "; "), sym.roots, sym.time, strings.Join(sym.uses, "; "))
+						}
+					}
+				}
+			}
+		}
+		if okName, term, ok := t.memoLookup(x); ok {
+			t.syms[okName] = &c10Sym{kind: "memook", memo: term}
+			return ""
+		}
+		return t.unk(s)
+	case *ast.ExprStmt:
+		if t.lockCall(x.X) {
+			return ""
+		}
+		if ce, ok := x.X.(*ast.CallExpr); ok {
+			if sel, ok := ce.Fun.(*ast.SelectorExpr); ok && sel.Sel.Name == "Store" && len(ce.Args) == 2 {
+				if g := t.globalVar(sel.X); g != "" {
+					return fmt.Sprintf("(SMemoStore %s %s)", c10Gid(g), t.key(ce.Args[0]))
+				}
+			}
+		}
+		return t.unk(s)
+	case *ast.DeferStmt:
+		if t.lockCall(x.Call) {
+			return ""
+		}
+		return t.unk(s)
+	case *ast.IfStmt:
+		pre := ""
+		if x.Init != nil {
+			p, ok := t.ifInit(x.Init)
+			if !ok {
+				return t.unk(s)
+			}
+			pre = p
+		}
+		c := t.cond(x.Cond)
+		th := t.block(x.Body.List)
+		el := "SSkip"
+		switch e := x.Else.(type) {
+		case *ast.BlockStmt:
+			el = t.block(e.List)
+		case *ast.IfStmt:
+			el = t.stmt(e)
+		}
+		term := "(SIf " + c + " " + th + " " + el + ")"
+		if pre != "" {
+			return "(SSeq " + pre + " " + term + ")"
+		}
+		return term
+	case *ast.BlockStmt:
+		return t.block(x.List)
+	case *ast.ReturnStmt:
+		if len(x.Results) != 1 {
+			return t.unk(s)
+		}
+		r := x.Results[0]
+		rs := t.pr(r)
+		if rs == "nil" {
+			return "SRetOk"
+		}
+		if rs == "err" {
+			return "SRetLast"
+		}
+		if ce, ok := r.(*ast.CallExpr); ok {
+			if args, ok := t.callArgs(ce); ok {
+				return "(SRetCall " + args + ")"
+			}
+			fn := t.pr(ce.Fun)
+			if (fn == "fmt.Errorf" || fn == "errors.New") && t.globalIn(r) == "" {
+				tag := 0
+				if strings.Contains(rs, "validating timestamp") {
+					tag = 1
+				}
+				return fmt.Sprintf("(SRetErr %d)", tag)
+			}
+		}
+		return t.unk(s)
+	}
+	return t.unk(s)
+}
+
+func c10Program(o *out, dir, recv, name, coqName string, vars map[string]map[string]bool) {
+	p, fd := findFunc(dir, recv, name)
+	if fd == nil || fd.Body == nil || fd.Recv == nil || len(fd.Recv.List) != 1 || len(fd.Recv.List[0].Names) != 1 {
+		o.brokenDef(coqName, "function "+dir+":"+recv+"."+name+" not found")
+		return
+	}
+	t := &c10Tr{p: p, dir: dir, recv: fd.Recv.List[0].Names[0].Name, syms: map[string]*c10Sym{}, vars: vars}
+	for _, f := range fd.Type.Params.List {
+		ty := strings.Join(strings.Fields(printNode(p.fset, f.Type)), "")
+		for _, n := range f.Names {
+			switch ty {
+			case "*x509.CertPool":
+				t.pRoots = n.Name
+			case "[]*x509.Certificate":
+				t.pExtra = n.Name
+			case "x509.ExtKeyUsage":
+				t.pUsage = n.Name
+			case "time.Time":
+				t.pTime = n.Name
+			}
+		}
+	}
+	body := t.block(fd.Body.List)
+	o.f("Definition %s : stmt :=\n  %s.\n(* from %s:%s.%s (receiver %s; parameters roots=%s extra=%s usage=%s time=%s)", coqName, body, dir, recv, name,
+		t.recv, t.pRoots, t.pExtra, t.pUsage, t.pTime)
+	if len(t.unknown) > 0 {
+		o.f("; NOT UNDERSTOOD: %s", strings.ReplaceAll(strings.Join(t.unknown, " | "), "*)", "* )"))
+	}
+	o.f(" *)\n")
 }
